@@ -43,25 +43,34 @@ def phase_a(mod_names: List[str], key: str, timeout_ms: int):
         return {"key": key, "status": "engine-error", "detail": traceback.format_exc()[-1500:], "results": [], "info": {}, "gen_s": time.time() - t0}
     gen_s = time.time() - t0
     # vacuity guard: behind every distinct path condition a canary `ensures False` must NOT be provable
-    seen_pc = set()
+    seen_pc = {}
     info["canaries"] = 0
     info["vacuous_paths"] = []
+    info["infeasible_paths"] = 0
     for vc in vcs:
         if isinstance(vc.formula, str):
             continue
         kpc = tuple(f.get_id() for f in vc.pc)
         if kpc in seen_pc:
             continue
-        seen_pc.add(kpc)
         info["canaries"] += 1
         cr, cdt, _, _ = z3_check(S, vc.pc, z3.BoolVal(False), 1500, mbqi=False)
+        seen_pc[kpc] = (cr == "unsat")
         if cr == "unsat":
-            info["vacuous_paths"].append("%s %s" % (vc.name, vc.path))
+            info["infeasible_paths"] += 1  # a path the pruner kept but that cannot be taken; vacuity is judged per obligation below
     results = []
     for idx, vc in enumerate(vcs):
         r = discharge(S, vc, timeout_ms=timeout_ms)
+        infeasible = (not isinstance(vc.formula, str)) and seen_pc.get(tuple(f.get_id() for f in vc.pc), False)
         results.append({"name": r.name, "status": r.status, "backend": r.backend, "seconds": r.seconds, "path": r.path, "detail": r.detail,
-                        "confirmed": None, "artefacts": [], "index": idx})
+                        "confirmed": None, "artefacts": [], "index": idx, "infeasible_path": infeasible})
+    # an obligation ALL of whose VCs sit on contradictory path conditions proves nothing: that is vacuity (e.g. an inconsistent loop invariant)
+    by = {}
+    for x in results:
+        by.setdefault(x["name"], []).append(x["infeasible_path"])
+    for nm, flags in by.items():
+        if flags and all(flags):
+            info["vacuous_paths"].append(nm)
     return {"key": key, "status": "ok", "results": results, "info": info, "gen_s": gen_s, "file": c.file, "qualname": c.qualname}
 
 
